@@ -749,10 +749,11 @@ fn run_program(text: &str, tag: &str, r: &mut Rng, st: &mut RunStats, expr_cases
         match piped {
             Err(p) => println!("ORACLE-FAIL\taccepted by type_check, then a later pass panics\tconst evaluation/simplification: {}\t{}\t{}", oneline(&p), oneline(text), tag),
             Ok(Err(_)) => { st.const_diag += 1; },
+            Ok(Ok(())) if !expr_cases => {},
             Ok(Ok(())) => {
                 let ctx: &CompilerContext = truth.ctx();
                 let defs = format!("[{}]", consts.iter().map(|(id, t)| format!("({}%nat, {})", id, t)).collect::<Vec<_>>().join("; "));
-                for (id, _) in consts.iter().take(8) {
+                for (id, _) in consts.iter().take(6) {
                     let def_id = truth::DefId(std::num::NonZeroU32::new(*id).unwrap());
                     if let Some(v) = ctx.consts.get_cached_value(def_id.into()) {
                         println!("CV\tKCv {} {} {}%nat (IOk {})\t{}\t{}", envt, defs, id, sty(v.ty()), oneline(text), tag);
@@ -764,7 +765,7 @@ fn run_program(text: &str, tag: &str, r: &mut Rng, st: &mut RunStats, expr_cases
                 if conv2.exprs.len() == pre.len() {
                     let mut n = 0;
                     for (k, e2) in conv2.exprs.iter().enumerate() {
-                        if pre[k].2 || n >= 8 { continue; }
+                        if pre[k].2 || n >= 6 { continue; }
                         let t = match e2 { ast::Expr::LitInt { .. } => "TInt", ast::Expr::LitFloat { .. } => "TFloat", ast::Expr::LitString(_) => "TString", _ => continue };
                         println!("FOLD\tKFold {} {} (IOk {})\t{}\t{}", pre[k].0, pre[k].1, t, oneline(text), tag);
                         st.fold += 1; n += 1;
